@@ -1,12 +1,13 @@
 /-
 Executable model of `RunBundler` (src/bluesky/bundlers.py), transcribed method by method,
-together with the three counter-handling lines of event_model (ComposeDescriptor sets the
-counter of a new stream to 1, ComposeEvent reads the counter and writes `seq_num + 1`,
-ComposeStop reports `v - 1` and refuses a second stop).
+together with the counter-handling lines of event_model (ComposeDescriptor sets the counter of a
+new stream to 1, ComposeEvent reads the counter and writes `seq_num + 1`, ComposeStop reports
+`v - 1` and refuses a second stop) and its key-set validations.
 
-Every operation returns a `Res`: the state after, the documents emitted (in order), the device
-calls made, and the exception (by class) that ended it, if any.  As in Python, whatever was
-mutated / emitted before the `raise` stays.
+Every operation returns a `Res`: the state after (whose `out` has the documents emitted appended,
+in order), the device calls made, and the exception (by class) that ended it, if any.  As in
+Python, whatever was mutated / emitted before the `raise` stays.  `BState.log` is a ghost record
+of what was done to the sequence counters (used by the proofs only).
 
 What is NOT modelled (stated in the MANIFEST of the properties that use this file):
 resource/datum documents of `WritesExternalAssets` devices inside `read`/`save`; old-style
@@ -20,10 +21,7 @@ import BlueskyVerif.Bundler.Generated
 namespace BlueskyVerif.Bundler
 open Generated
 
-/-! ### small helpers -/
-
-def emit (s : BState) (d : Doc) : Res := { st := s, docs := [d] }
-def call (s : BState) (o : Obj) (m : String) : Res := { st := s, calls := [⟨o, m⟩] }
+/-! ### counters -/
 
 /-- current value of a stream's counter; 1 when the stream has no counter yet (a new stream
     starts at `firstSeq`) -/
@@ -32,61 +30,58 @@ def cur (s : BState) (n : Name) : Nat := (aget s.seq n).getD firstSeq
 /-- `_commit_sequence_counter(stream_name)` -/
 def commit (s : BState) (n : Name) : BState :=
   match aget s.seq n with
-  | some c => { s with seqCopy := aset s.seqCopy n c }
-  | none => s
+  | some c => { s with seqCopy := aset s.seqCopy n c, log := s.log ++ [.commit n] }
+  | none => { s with log := s.log ++ [.commit n] }
 
 /-- `reset_checkpoint_state`: `for key, counter in list(counters.items()): copy[key] = counter` -/
 def resetCp (s : BState) : BState :=
-  { s with seqCopy := aupdate s.seqCopy s.seq, cpCleared := false }
+  { s with seqCopy := aupdate s.seqCopy s.seq, cpCleared := false, log := s.log ++ [.reset] }
+
+/-- one iteration of the loop of `rewind` over `_descriptor_objs` -/
+def rewindReadd (a : BState) (n : Name) : BState :=
+  if ahas a.seq n then a
+  else { a with seq := aset a.seq n firstSeq, seqCopy := aset a.seqCopy n firstSeq }
 
 /-- `rewind` -/
 def rewindOp (s : BState) : BState :=
-  let s1 := { s with seq := s.seqCopy }
-  let s2 :=
-    if rewindReaddsDescriptorStreams then
-      (akeys s1.descriptors).foldl
-        (fun (a : BState) (n : Name) =>
-          if ahas a.seq n then a
-          else { a with seq := aset a.seq n firstSeq, seqCopy := aset a.seqCopy n firstSeq })
-        s1
-    else s1
+  let s1 := { s with seq := s.seqCopy, log := s.log ++ [.rewind (akeys s.descriptors)] }
+  let s2 := if rewindReaddsDescriptorStreams then (akeys s1.descriptors).foldl rewindReadd s1 else s1
   if rewindCancelsBundle then { s2 with bundling := false } else s2
 
 /-- `clear_checkpoint` -/
 def clearCp (s : BState) : BState :=
-  { s with seqCopy := [], cpCleared := true }
-
-/-- the calls as the code makes them (each guarded by the extracted fact that the call exists) -/
-def commitR (s : BState) (n : Name) : Res := Res.pure (commit s n) [.commit n]
-def resetR (s : BState) : Res := Res.pure (resetCp s) [.reset]
+  { s with seqCopy := [], cpCleared := true, log := s.log ++ [.clear] }
 
 /-- keys of a descriptor that are not external "STREAM:" keys (event_model.keys_without_stream_keys) -/
 def nonStream (ext keys : List Key) : List Key := keys.filter (fun k => !ext.contains k)
 
-/-- event_model `ComposeEvent.__call__` for the descriptor `(uid, keys, ext)` of stream `n`:
-    reads the counter (KeyError when the stream has none), validates the key sets, writes
-    `seq_num + 1`, returns the event. -/
+/-- event_model `ComposeEvent.__call__` for the descriptor `(uid, keys, ext)` of stream `n`, followed
+    by the emission of the event: reads the counter (KeyError when the stream has none), validates
+    the key sets, writes `seq_num + 1`. -/
 def composeEvent (s : BState) (n : Name) (descUid : Nat) (descKeys ext : List Key)
     (data : List (Key × Val)) (src : Src) (note : Option String := none) : Res :=
   match aget s.seq n with
   | none => Res.fail s .keyError
   | some c =>
-    let uid := s.nextUid
-    let s := { s with nextUid := s.nextUid + 1 }
     -- keys_without_stream_keys(data, descriptor["data_keys"]) indexes the descriptor with every data key
-    if (data.map Prod.fst).any (fun k => !descKeys.contains k) then Res.fail s .keyError
+    if (data.map Prod.fst).any (fun k => !descKeys.contains k) then
+      Res.fail { s with nextUid := s.nextUid + 1 } .keyError
     else if !sameSet (nonStream ext descKeys) (nonStream ext (data.map Prod.fst)) then
-      Res.fail s .eventModelValidationError
+      Res.fail { s with nextUid := s.nextUid + 1 } .eventModelValidationError
     else
-      let s := { s with seq := aset s.seq n (c + eventIncrement) }
-      { st := s
-        docs := [{ kind := .event, src := src, uid := uid, run := s.run, descriptor := some descUid,
-                   stream := some n, seq := some c, keys := data.map Prod.fst, data := data, note := note }]
-        cev := [.emit n c (src == .bundle)] }
+      Res.ok
+        { s with nextUid := s.nextUid + 1
+                 seq := aset s.seq n (c + eventIncrement)
+                 out := s.out ++ [{ kind := .event, src := src, uid := s.nextUid, run := s.run,
+                                    descriptor := some descUid, stream := some n, seq := some c,
+                                    keys := data.map Prod.fst, data := data, note := note }]
+                 log := s.log ++ [.emit n c (src == .bundle)] }
 
 /-- dict-merge of the cached readings: `{k: v for d in cache for k, v in d.items()}` -/
 def mergeReadings (rs : List Reading) : List (Key × Val) :=
   rs.foldl (fun acc r => aupdate acc r) []
+
+/-! ### caches -/
 
 /-- `_cache_read_config(obj)` -/
 def cacheReadConfig (w : World) (s : BState) (o : Obj) : Res :=
@@ -124,89 +119,105 @@ def cacheConfig (w : World) (s : BState) (o : Obj) : Res :=
 def ensureCached (w : World) (s : BState) (o : Obj) (collect : Bool) : Res :=
   (cacheDescribe w s o collect).andThen fun s => cacheConfig w s o
 
+def ensureAll (w : World) (s : BState) (objs : List Obj) (collect : Bool) : Res :=
+  objs.foldl (fun (r : Res) o => r.andThen fun s => ensureCached w s o collect) (Res.ok s)
+
+/-! ### descriptors -/
+
 /-- external ("STREAM:") keys among `keys`: exactly the keys that belong to a detector -/
 def externalKeys (w : World) (objsDks : List (Obj × List Key)) : List Key :=
   dedupKeys (objsDks.flatMap fun od => if (w.spec od.1).isDet then od.2 else [])
 
+/-- the `configuration` block `_prepare_stream` builds from the caches -/
+def configBlock (s : BState) (objsDks : List (Obj × List Key)) : List (Obj × CfgBlock) :=
+  objsDks.map fun od =>
+    (od.1, { data := (aget s.configValuesCache od.1).getD [], dataKeys := (aget s.configDescCache od.1).getD [] })
+
+/-- the bundle `_prepare_stream` stores in `_descriptors[name]` / `_descriptor_objs[name]` -/
+def mkDesc (w : World) (s : BState) (objsDks : List (Obj × List Key)) (uid : Nat) : Desc :=
+  { uid := uid, keys := dedupKeys (objsDks.flatMap Prod.snd), objs := objsDks, ext := externalKeys w objsDks,
+    config := configBlock s objsDks }
+
+def descDoc (s : BState) (n : Name) (d : Desc) : Doc :=
+  { kind := .descriptor, src := .prepare, uid := d.uid, run := s.run, stream := some n, keys := d.keys,
+    extKeys := d.ext, objKeys := d.objs, config := d.config }
+
+/-- `self._descriptors[desc_key] = ...; emit(descriptor); self._descriptor_objs[desc_key] = objs_dks` -/
+def prepareStore (w : World) (s : BState) (n : Name) (objsDks : List (Obj × List Key)) (uid : Nat) : BState :=
+  { s with descriptors := aset s.descriptors n (mkDesc w s objsDks uid),
+           out := s.out ++ [descDoc s n (mkDesc w s objsDks uid)] }
+
+/-- tail of `_prepare_stream`: store the bundle, emit the descriptor, make sure the stream has a counter -/
+def prepareFinish (w : World) (s : BState) (n : Name) (objsDks : List (Obj × List Key)) (uid : Nat) : BState :=
+  if ahas s.seq n then prepareStore w s n objsDks uid
+  else { prepareStore w s n objsDks uid with
+           seq := aset s.seq n firstSeq, seqCopy := aset s.seqCopy n firstSeq, log := s.log ++ [.ensure n] }
+
 /-- `_prepare_stream(desc_key, objs_dks)` including event_model's `ComposeDescriptor.__call__` -/
 def prepareStream (w : World) (s : BState) (n : Name) (objsDks : List (Obj × List Key)) : Res :=
-  let dataKeys := dedupKeys (objsDks.flatMap Prod.snd)
-  let config : List (Obj × CfgBlock) :=
-    objsDks.map fun od =>
-      (od.1, { data := (aget s.configValuesCache od.1).getD [], dataKeys := (aget s.configDescCache od.1).getD [] })
   -- `self._config_values_cache[obj]` raises KeyError for an object that was never cached
   if objsDks.any (fun od => !ahas s.configValuesCache od.1) then Res.fail s .keyError else
   -- ComposeDescriptor
-  let uid := s.nextUid
-  let s := { s with nextUid := s.nextUid + 1 }
   match aget s.streams n with
   | some ks =>
-    if !sameSet ks dataKeys then Res.fail s .eventModelValidationError
-    else finish s uid dataKeys config []
+    if !sameSet ks (dedupKeys (objsDks.flatMap Prod.snd)) then
+      Res.fail { s with nextUid := s.nextUid + 1 } .eventModelValidationError
+    else Res.ok (prepareFinish w { s with nextUid := s.nextUid + 1 } n objsDks s.nextUid)
   | none =>
-    let s := { s with streams := aset s.streams n dataKeys, seq := aset s.seq n firstSeq }
-    finish s uid dataKeys config [CEv.newStream n]
-where
-  finish (s : BState) (uid : Nat) (dataKeys : List Key) (config : List (Obj × CfgBlock)) (pre : List CEv) : Res :=
-    let d : Desc := { uid := uid, keys := dataKeys, objs := objsDks, ext := externalKeys w objsDks, config := config }
-    let s := { s with descriptors := aset s.descriptors n d }
-    let ens := !ahas s.seq n
-    let s :=
-      if ens then { s with seq := aset s.seq n firstSeq, seqCopy := aset s.seqCopy n firstSeq } else s
-    { st := s
-      docs := [{ kind := .descriptor, src := .prepare, uid := uid, run := s.run, stream := some n,
-                 keys := dataKeys, extKeys := d.ext, objKeys := objsDks, config := config }]
-      cev := pre ++ (if ens then [.ensure n] else []) }
+    Res.ok (prepareFinish w
+      { s with nextUid := s.nextUid + 1
+               streams := aset s.streams n (dedupKeys (objsDks.flatMap Prod.snd)), seq := aset s.seq n firstSeq,
+               log := s.log ++ [.newStream n] } n objsDks s.nextUid)
 
 /-! ### run life cycle -/
 
 /-- `RunBundler(...)` followed by `open_run`; `uid0` is the first free uid -/
-def openRun (cfg : BCfg) (uid0 : Nat) (envCfg : List (Obj × Config) := []) : Res :=
-  let s : BState := { cfg := cfg, runOpen := true, run := uid0, nextUid := uid0 + 1, envCfg := envCfg }
-  let r : Res := { st := s, docs := [{ kind := .start, src := .run, uid := uid0, run := uid0 }] }
-  (r.andThen fun s => if openRunResets then resetR s else Res.ok s).andThen fun s =>
-    if s.cfg.recordInterruptions then
-      let uid := s.nextUid
-      let s := { s with nextUid := uid + 1, interruptionsDesc := some uid,
-                        streams := aset s.streams "interruptions" ["interruption"],
-                        seq := aset s.seq "interruptions" firstSeq }
-      { st := s
-        docs := [{ kind := .descriptor, src := .run, uid := uid, run := s.run, stream := some "interruptions",
-                   keys := ["interruption"] }]
-        cev := [.newStream "interruptions"] }
-    else Res.ok s
+def openRun (cfg : BCfg) (uid0 : Nat) (envCfg : List (Obj × Config) := []) : BState :=
+  let s : BState := { cfg := cfg, runOpen := true, run := uid0, nextUid := uid0 + 1, envCfg := envCfg,
+                      out := [{ kind := .start, src := .run, uid := uid0, run := uid0 }] }
+  let s := if openRunResets then resetCp s else s
+  if cfg.recordInterruptions then
+    { s with nextUid := uid0 + 2, interruptionsDesc := some (uid0 + 1),
+             streams := aset s.streams "interruptions" ["interruption"],
+             seq := aset s.seq "interruptions" firstSeq,
+             out := s.out ++ [{ kind := .descriptor, src := .run, uid := uid0 + 1, run := uid0,
+                                stream := some "interruptions", keys := ["interruption"] }]
+             log := s.log ++ [.newStream "interruptions"] }
+  else s
 
 /-- `for obj, (cb, kwargs) in list(self._monitor_params.items()): obj.clear_sub(cb); del ...` -/
 def dropMonitors (s : BState) : Res :=
   { st := { s with monitors := [], subs := s.subs.filter fun p => !ahas s.monitors p.1 }
     calls := s.monitors.map fun m => ⟨m.1, "clear_sub"⟩ }
 
+/-- ComposeStop + emit + the rest of `close_run` -/
+def closeRunTail (s : BState) (exit reason : String) : Res :=
+  if s.stopped then Res.fail s .eventModelError else
+  let s1 := { s with stopped := true, nextUid := s.nextUid + 1
+                     out := s.out ++ [{ kind := .stop, src := .run, uid := s.nextUid, run := s.run, exit := some exit,
+                                        reason := some reason,
+                                        numEvents := s.seq.map fun kv => (kv.1, kv.2 - stopOffset) }] }
+  Res.ok { (if closeRunResets then resetCp s1 else s1) with runOpen := false }
+
 def closeRun (s : BState) (exit reason : Option String) : Res :=
   if !s.runOpen then Res.fail s .illegalMessageSequence else
   (dropMonitors s).andThen fun s =>
-    let reason := reason.getD ""
-    let exit := match exit with
-      | some e => if e == "" then "success" else e
-      | none => "success"
-    -- ComposeStop
-    if s.stopped then Res.fail s .eventModelError else
-    let uid := s.nextUid
-    let s := { s with stopped := true, nextUid := uid + 1 }
-    (emit s { kind := .stop, src := .run, uid := uid, run := s.run, exit := some exit, reason := some reason,
-              numEvents := s.seq.map fun kv => (kv.1, kv.2 - stopOffset) }).andThen fun s =>
-      (if closeRunResets then resetR s else Res.ok s).andThen fun s =>
-        Res.ok { s with runOpen := false }
+    closeRunTail s
+      (match exit with
+       | some e => if e == "" then "success" else e
+       | none => "success")
+      (reason.getD "")
 
 /-! ### bundles -/
 
 def create (s : BState) (name : Option Name) : Res :=
   if s.bundling then Res.fail s .illegalMessageSequence else
-  let s := { s with readCache := [], objsRead := [], bundling := true }
   match name with
-  | none => Res.fail s .valueError
+  | none => Res.fail { s with readCache := [], objsRead := [], bundling := true } .valueError
   | some n =>
-    let s := { s with bundleName := some n }
-    if s.cfg.strict && !ahas s.descriptors n then Res.fail s .illegalMessageSequence else Res.ok s
+    if s.cfg.strict && !ahas s.descriptors n then
+      Res.fail { s with readCache := [], objsRead := [], bundling := true, bundleName := some n } .illegalMessageSequence
+    else Res.ok { s with readCache := [], objsRead := [], bundling := true, bundleName := some n }
 
 /-- does `obj`'s describe collide with an object already read in this bundle -/
 def collides (s : BState) (o : Obj) : Bool :=
@@ -222,9 +233,6 @@ def read (w : World) (s : BState) (o : Obj) (reading : Reading) : Res :=
 /-- the `objs_dks` dict built by `save` for a new descriptor (duplicates collapse) -/
 def saveObjsDks (s : BState) (objs : List Obj) : List (Obj × List Key) :=
   objs.foldl (fun acc o => aset acc o ((aget s.describeCache o).getD [])) []
-
-def ensureAll (w : World) (s : BState) (objs : List Obj) (collect : Bool) : Res :=
-  objs.foldl (fun (r : Res) o => r.andThen fun s => ensureCached w s o collect) (Res.ok s)
 
 /-- the part of `save` that looks the stream's descriptor up, making it when the stream is new and
     rejecting a bundle whose objects differ from the stream's -/
@@ -260,16 +268,20 @@ def drop (s : BState) : Res :=
 
 def subInc (subs : List (Obj × Nat)) (o : Obj) : List (Obj × Nat) := aset subs o ((aget subs o).getD 0 + 1)
 
+/-- last part of `monitor`: remember the closure and subscribe it -/
+def monitorSubscribe (s : BState) (o : Obj) (n : Name) : Res :=
+  match aget s.descriptors n with
+  | none => Res.fail s .keyError
+  | some d =>
+    { st := { s with monitors := aset s.monitors o { name := n, descUid := d.uid, descKeys := d.keys }
+                     subs := subInc s.subs o }
+      calls := [⟨o, "subscribe"⟩] }
+
 def monitor (w : World) (s : BState) (o : Obj) (n : Name) : Res :=
   if ahas s.monitors o then Res.fail s .illegalMessageSequence else
   (ensureCached w s o false).andThen fun s =>
     (prepareStream w s n [(o, (aget s.describeCache o).getD [])]).andThen fun s =>
-      match aget s.descriptors n with
-      | none => Res.fail s .keyError
-      | some d =>
-        { st := { s with monitors := aset s.monitors o { name := n, descUid := d.uid, descKeys := d.keys }
-                         subs := subInc s.subs o }
-          calls := [⟨o, "subscribe"⟩] }
+      monitorSubscribe s o n
 
 /-- `compose_event(...)` inside the monitor closure.  The composer is looked up in `_descriptors`
     at call time (extracted fact `monitorUsesCurrentDescriptor`); otherwise it would be the one
@@ -281,26 +293,20 @@ def monitorCompose (s : BState) (m : MonRec) (reading : Reading) : Res :=
     | some d => composeEvent s m.name d.uid d.keys d.ext reading .monitor
   else composeEvent s m.name m.descUid m.descKeys [] reading .monitor
 
-/-- one call of the closure `emit_event` created by `monitor(obj)` -/
+/-- one call of the closure `emit_event` created by `monitor(obj)` (the commit happens between
+    compose_event and emit_sync; the order is immaterial for the model) -/
 def monitorUpdate (s : BState) (o : Obj) (reading : Reading) : Res :=
   match aget s.monitors o with
   | none => Res.ok s     -- no closure exists for this object
   | some m =>
-    match (monitorCompose s m reading).err with
-    | some _ => monitorCompose s m reading
-    | none =>
-      -- commit happens between compose_event and emit_sync
-      if monitorCommits then
-        { monitorCompose s m reading with
-            st := commit (monitorCompose s m reading).st m.name
-            cev := (monitorCompose s m reading).cev ++ [.commit m.name] }
-      else monitorCompose s m reading
+    (monitorCompose s m reading).andThen fun s =>
+      Res.ok (if monitorCommits then commit s m.name else s)
 
 def unmonitor (s : BState) (o : Obj) : Res :=
   if !ahas s.monitors o then Res.fail s .illegalMessageSequence else
-  let s := { s with monitors := aerase s.monitors o, subs := aerase s.subs o }
-  let r : Res := { st := s, calls := [⟨o, "clear_sub"⟩] }
-  r.andThen fun s => if unmonitorResets then resetR s else Res.ok s
+  { st := if unmonitorResets then resetCp { s with monitors := aerase s.monitors o, subs := aerase s.subs o }
+          else { s with monitors := aerase s.monitors o, subs := aerase s.subs o }
+    calls := [⟨o, "clear_sub"⟩] }
 
 def clearMonitors (s : BState) : Res := dropMonitors s
 
@@ -316,28 +322,23 @@ def recordInterruption (s : BState) (content : String) : Res :=
   match s.interruptionsDesc with
   | none => Res.ok s
   | some uid =>
-    let r := composeEvent s "interruptions" uid ["interruption"] [] [("interruption", 0)] .interruption (some content)
-    match r.err with
-    | some _ => r
-    | none =>
-      if interruptionCommits then { r with st := commit r.st "interruptions", cev := r.cev ++ [.commit "interruptions"] }
-      else r
+    (composeEvent s "interruptions" uid ["interruption"] [] [("interruption", 0)] .interruption (some content)).andThen
+      fun s => Res.ok (if interruptionCommits then commit s "interruptions" else s)
 
 /-! ### configure -/
 
-/-- second half of `configure`: re-prepare every stream whose descriptor contains `o`
-    (`for name in list(self._descriptors): ...`) -/
+/-- one iteration of the loop of `configure` over `list(self._descriptors)` -/
+def reprepareOne (w : World) (s : BState) (o : Obj) (n : Name) : Res :=
+  match aget s.descriptors n with
+  | none => Res.fail s .keyError
+  | some d =>
+    if ahas d.objs o then
+      prepareStream w { s with descriptors := aerase s.descriptors n } n d.objs
+    else Res.ok s
+
+/-- second half of `configure`: re-prepare every stream whose descriptor contains `o` -/
 def reprepareAll (w : World) (s : BState) (o : Obj) : Res :=
-  s.descriptors.foldl
-    (fun (r : Res) (nd : Name × Desc) =>
-      r.andThen fun s =>
-        match aget s.descriptors nd.1 with
-        | none => Res.fail s .keyError
-        | some d =>
-          if ahas d.objs o then
-            prepareStream w { s with descriptors := aerase s.descriptors nd.1 } nd.1 d.objs
-          else Res.ok s)
-    (Res.ok s)
+  (akeys s.descriptors).foldl (fun (r : Res) (n : Name) => r.andThen fun s => reprepareOne w s o n) (Res.ok s)
 
 def configure (w : World) (s : BState) (o : Obj) : Res :=
   (cacheReadConfig w s o).andThen fun s => reprepareAll w s o
@@ -354,17 +355,19 @@ def declareAppend (d : List (List Obj × List Name)) (objs : List Obj) (n : Name
   | [] => [(objs, [n])]
   | p :: t => if sameSet p.1 objs then (p.1, p.2 ++ [n]) :: t else p :: declareAppend t objs n
 
+/-- `objs_dks` of `declare_stream` -/
+def declareObjsDks (s : BState) (objs : List Obj) (collect : Bool) : List (Obj × List Key) :=
+  objs.map fun o =>
+    (o, if collect then (aget s.describeCollectCache o).getD [] else (aget s.describeCache o).getD [])
+
 def declareStream (w : World) (s : BState) (n : Name) (objs : List Obj) (collect : Bool) : Res :=
-  let objs := dedupKeys objs
-  (ensureAll w s objs collect).andThen fun s =>
+  (ensureAll w s (dedupKeys objs) collect).andThen fun s =>
     -- a detector with an empty describe_collect fails the single-stream assertion
-    if collect && objs.any (fun o => ((aget s.describeCollectCache o).getD []).isEmpty) then
+    if collect && (dedupKeys objs).any (fun o => ((aget s.describeCollectCache o).getD []).isEmpty) then
       Res.fail s .assertionError
     else
-      let objsDks := objs.map fun o =>
-        (o, if collect then (aget s.describeCollectCache o).getD [] else (aget s.describeCache o).getD [])
-      let s := { s with declared := declareAppend s.declared objs n }
-      prepareStream w s n objsDks
+      prepareStream w { s with declared := declareAppend s.declared (dedupKeys objs) n } n
+        (declareObjsDks s (dedupKeys objs) collect)
 
 /-- `set.add` on `_uncollected`; the iteration order of that set is name order for the fakes
     (their `__hash__` is chosen so) -/
@@ -393,56 +396,63 @@ def detCollect (name : Obj) (keys : List Key) (d : DetSt) (index : Option Nat) (
    { d with sent := true, ndatum := if emitDatums then d.ndatum + n else d.ndatum,
             last := if emitDatums then max d.last index else d.last })
 
-/-- `_pack_external_assets(asset_docs, message_stream_name)`; returns the state and the last
-    indices difference (`prev`) through `Res` + the extra component -/
+/-- state of `_pack_external_assets` while it loops over the asset documents -/
 structure PackSt where
-  res : Res
-  prev : Nat := 0
-  received : List Key := []
+  st : BState
+  err : Option Err := none
+  prev : Nat := 0              -- stream_datum_previous_indices_difference
+  received : List Key := []    -- data_keys_received
 
+/-- one asset document inside `_pack_external_assets` (stream `n`, its descriptor `d`) -/
 def packOne (n : Name) (d : Desc) (p : PackSt) (a : Asset) : PackSt :=
-  match p.res.err with
+  match p.err with
   | some _ => p
   | none =>
-    let s := p.res.st
-    let fail (s : BState) (e : Err) : PackSt := { p with res := { p.res with st := s, err := some e } }
     match a with
     | .resource uid key =>
-      if ahas s.streamResources uid then fail s .runtimeError else
-      let s := { s with streamResources := aset s.streamResources uid key }
-      if d.ext.isEmpty || !d.ext.contains key then fail s .runtimeError else
-      { p with res := { p.res with st := s, docs := p.res.docs ++
-          [{ kind := .streamResource, src := .collect, run := s.run, sid := some uid, dataKey := some key }] } }
+      if ahas p.st.streamResources uid then { p with err := some .runtimeError } else
+      if d.ext.isEmpty || !d.ext.contains key then
+        { p with st := { p.st with streamResources := aset p.st.streamResources uid key }, err := some .runtimeError }
+      else
+        { p with st := { p.st with streamResources := aset p.st.streamResources uid key
+                                   out := p.st.out ++ [{ kind := .streamResource, src := .collect, run := p.st.run,
+                                                         sid := some uid, dataKey := some key }] } }
     | .datum uid resource descFilled start stop seqFilled =>
-      if descFilled then fail s .runtimeError else
-      match aget s.streamResources resource with
-      | none => fail s .keyError
+      if descFilled then { p with err := some .runtimeError } else
+      match aget p.st.streamResources resource with
+      | none => { p with err := some .keyError }
       | some key =>
-        let received := if p.received.contains key then p.received else p.received ++ [key]
         -- _pack_seq_nums_into_stream_datum
-        if seqFilled then { fail s .eventModelValueError with received := received } else
-        let diff := stop - start
-        if p.prev != 0 && p.prev != diff then { fail s .eventModelValueError with received := received } else
-        match aget s.seq n with
-        | none => { fail s .keyError with received := received }
+        if seqFilled then
+          { p with err := some .eventModelValueError
+                   received := if p.received.contains key then p.received else p.received ++ [key] }
+        else if p.prev != 0 && p.prev != stop - start then
+          { p with err := some .eventModelValueError
+                   received := if p.received.contains key then p.received else p.received ++ [key] }
+        else
+        match aget p.st.seq n with
+        | none =>
+          { p with err := some .keyError
+                   received := if p.received.contains key then p.received else p.received ++ [key] }
         | some c =>
-          { res := { p.res with docs := p.res.docs ++
-              [{ kind := .streamDatum, src := .collect, run := s.run, descriptor := some d.uid, stream := some n,
-                 seqRange := some (c, c + diff), idxRange := some (start, stop), sid := some uid,
-                 resource := some resource }] }
-            prev := diff, received := received }
+          { st := { p.st with out := p.st.out ++ [{ kind := .streamDatum, src := .collect, run := p.st.run,
+                                                    descriptor := some d.uid, stream := some n,
+                                                    seqRange := some (c, c + (stop - start)),
+                                                    idxRange := some (start, stop), sid := some uid,
+                                                    resource := some resource }] }
+            prev := stop - start
+            received := if p.received.contains key then p.received else p.received ++ [key] }
 
+/-- `_pack_external_assets(asset_docs, message_stream_name)` -/
 def packExternalAssets (s : BState) (n : Name) (assets : List Asset) : PackSt :=
   match aget s.descriptors n with
-  | none => { res := Res.fail s .keyError }
+  | none => { st := s, err := some .keyError }
   | some d =>
-    let p := assets.foldl (packOne n d) { res := Res.ok s }
-    match p.res.err with
+    let p := assets.foldl (packOne n d) { st := s }
+    match p.err with
     | some _ => p
     | none =>
-      if !p.received.isEmpty && !sameSet d.ext p.received then
-        { p with res := { p.res with err := some .runtimeError } }
-      else p
+      if !p.received.isEmpty && !sameSet d.ext p.received then { p with err := some .runtimeError } else p
 
 def aggIndex (l : List Nat) : Nat :=
   match collectIndexAgg with
@@ -459,56 +469,72 @@ def gatherAssets (w : World) (s : BState) (objs : List Obj) (index : Option Nat)
       (acc.1 ++ docs, aset acc.2 om.1 d'))
     ([], s.dets)
 
+/-- which stream a `collect` goes to: the given name must have been declared for exactly these objects;
+    without a name the (single) declared stream is used; `none` = nothing declared -/
+def collectStream (s : BState) (objs : List Obj) (name : Option Name) : Except Err (Option Name) :=
+  match name with
+  | some n => if (declaredNames s objs).contains n then .ok (some n) else .error .assertionError
+  | none =>
+    match declaredNames s objs with
+    | [] => .ok none
+    | n :: _ => if (declaredNames s objs).all (· == n) then .ok (some n) else .error .assertionError
+
+/-- the index passed to `collect_asset_docs`: the aggregated `get_index()` when several detectors
+    are collected together -/
+def collectIndex (s : BState) (objs : List Obj) : Option Nat :=
+  if objs.length > 1 then some (aggIndex (objs.map fun o => ((aget s.dets o).getD {}).index)) else none
+
+def collectCalls (objs : List Obj) : List Call :=
+  (if objs.length > 1 then objs.map fun o => ⟨o, "get_index"⟩ else []) ++ objs.map fun o => ⟨o, "collect_asset_docs"⟩
+
+/-- advance the stream's counter by the (last) indices difference -/
+def collectBump (p : PackSt) (n : Name) : Res :=
+  match p.err with
+  | some e => Res.fail p.st e
+  | none =>
+    match aget p.st.seq n with
+    | none => Res.fail p.st .keyError
+    | some c =>
+      Res.ok (if collectAdvancesByDifference then
+                { p.st with seq := aset p.st.seq n (c + p.prev), log := p.st.log ++ [.bump n c p.prev] }
+              else p.st)
+
+/-- the tail of `_collect` for detectors once the stream is known: gather, pack, advance the counter -/
+def collectInto (w : World) (s : BState) (objs : List Obj) (n : Name) (mis : List Mis) : Res :=
+  let r := collectBump
+    (packExternalAssets { s with dets := (gatherAssets w s objs (collectIndex s objs) mis).2 } n
+      (gatherAssets w s objs (collectIndex s objs) mis).1) n
+  { r with calls := collectCalls objs }
+
 /-- `_collect(msg)` for detectors (every object Collectable + WritesStreamAssets) -/
 def collectInner (w : World) (s : BState) (objs : List Obj) (name : Option Name) (mis : List Mis) : Res :=
   if !s.runOpen then Res.fail s .illegalMessageSequence else
-  let s := { s with uncollected := s.uncollected.filter fun o => !objs.contains o }
-  let declared := declaredNames s objs
-  let stream? : Except Err (Option Name) :=
-    match name with
-    | some n => if declared.contains n then .ok (some n) else .error .assertionError
-    | none =>
-      match declared with
-      | [] => .ok none
-      | n :: _ => if declared.all (· == n) then .ok (some n) else .error .assertionError
-  match stream? with
-  | .error e => Res.fail s e
+  match collectStream { s with uncollected := s.uncollected.filter fun o => !objs.contains o } objs name with
+  | .error e => Res.fail { s with uncollected := s.uncollected.filter fun o => !objs.contains o } e
   | .ok none =>
     -- old-style path: `_describe_collect` rejects singly nested data keys
     match objs with
-    | [o] => (ensureCached w s o true).andThen fun s => Res.fail s .assertionError
-    | _ => Res.fail s .illegalMessageSequence
-  | .ok (some n) =>
-    let idxCalls : List Call := if objs.length > 1 then objs.map fun o => ⟨o, "get_index"⟩ else []
-    let minIndex : Option Nat :=
-      if objs.length > 1 then some (aggIndex (objs.map fun o => ((aget s.dets o).getD {}).index)) else none
-    let (assets, dets') := gatherAssets w s objs minIndex mis
-    let s := { s with dets := dets' }
-    let pre : Res := { st := s, calls := idxCalls ++ objs.map fun o => ⟨o, "collect_asset_docs"⟩ }
-    pre.andThen fun s =>
-      let p := packExternalAssets s n assets
-      p.res.andThen fun s =>
-        match aget s.seq n with
-        | none => Res.fail s .keyError
-        | some c =>
-          if collectAdvancesByDifference then Res.pure { s with seq := aset s.seq n (c + p.prev) } [.bump n c p.prev]
-          else Res.ok s
+    | [o] =>
+      (ensureCached w { s with uncollected := s.uncollected.filter fun o => !objs.contains o } o true).andThen
+        fun s => Res.fail s .assertionError
+    | _ => Res.fail { s with uncollected := s.uncollected.filter fun o => !objs.contains o } .illegalMessageSequence
+  | .ok (some n) => collectInto w { s with uncollected := s.uncollected.filter fun o => !objs.contains o } objs n mis
+
+/-- the `finally` of `collect`: commit every stream whose counter differs from its value on entry -/
+def commitChanged (before : List (Name × Nat)) (s : BState) : BState :=
+  ((s.seq.filter fun kv => aget before kv.1 != some kv.2).map Prod.fst).foldl commit s
 
 /-- `collect(msg)`: `_collect` plus the `finally` that commits every counter that changed -/
 def collect (w : World) (s : BState) (objs : List Obj) (name : Option Name) (mis : List Mis) : Res :=
-  let before := s.seq
-  let r := collectInner w s objs name mis
   if collectCommitsChanged then
-    let changed := (r.st.seq.filter fun kv => aget before kv.1 != some kv.2).map Prod.fst
-    { r with st := changed.foldl commit r.st, cev := r.cev ++ changed.map CEv.commit }
-  else r
+    { collectInner w s objs name mis with st := commitChanged s.seq (collectInner w s objs name mis).st }
+  else collectInner w s objs name mis
 
 /-- `backstop_collect`: `for obj in list(self._uncollected): try: collect(Msg("collect", obj)) except: log` -/
 def backstopCollect (w : World) (s : BState) : Res :=
   s.uncollected.foldl
     (fun (r : Res) o =>
-      let r2 := collect w r.st [o] none []
-      { st := r2.st, docs := r.docs ++ r2.docs, calls := r.calls ++ r2.calls, err := none, cev := r.cev ++ r2.cev })
+      { st := (collect w r.st [o] none []).st, calls := r.calls ++ (collect w r.st [o] none []).calls, err := none })
     (Res.ok s)
 
 /-! ### dispatcher -/
@@ -526,9 +552,9 @@ def step (w : World) (s : BState) : Op → Res
   | .restoreMonitors => restoreMonitors s
   | .clearMonitors => clearMonitors s
   | .recordInterruption c => recordInterruption s c
-  | .rewind => Res.pure (rewindOp s) [.rewind (akeys s.descriptors)]
-  | .resetCheckpoint => resetR s
-  | .clearCheckpoint => Res.pure (clearCp s) [.clear]
+  | .rewind => Res.ok (rewindOp s)
+  | .resetCheckpoint => Res.ok (resetCp s)
+  | .clearCheckpoint => Res.ok (clearCp s)
   | .configure o => configure w s o
   | .declareStream n objs c => declareStream w s n objs c
   | .kickoff o => kickoff s o
@@ -536,8 +562,7 @@ def step (w : World) (s : BState) : Op → Res
   | .backstopCollect => backstopCollect w s
   | .setCfg o c => Res.ok { s with envCfg := aset s.envCfg o c }
   | .advance o k =>
-    let d := (aget s.dets o).getD {}
-    Res.ok { s with dets := aset s.dets o { d with index := d.index + k } }
+    Res.ok { s with dets := aset s.dets o { (aget s.dets o).getD {} with index := ((aget s.dets o).getD {}).index + k } }
 
 /-- one entry of a trace: the operation, what it emitted, and how it ended -/
 structure Entry where
@@ -551,9 +576,14 @@ structure Entry where
 def runFrom (w : World) (s : BState) : List Op → BState × List Entry
   | [] => (s, [])
   | op :: ops =>
-    let r := step w s op
-    let (s', tr) := runFrom w r.st ops
-    (s', ⟨op, r.docs, r.calls, r.err, r.cev⟩ :: tr)
+    ((runFrom w (step w s op).st ops).1,
+     ⟨op, docsSince s (step w s op).st, (step w s op).calls, (step w s op).err, cevSince s (step w s op).st⟩ ::
+       (runFrom w (step w s op).st ops).2)
+
+/-- the final state only -/
+def runState (w : World) (s : BState) : List Op → BState
+  | [] => s
+  | op :: ops => runState w (step w s op).st ops
 
 def traceDocs (tr : List Entry) : List Doc := tr.flatMap (·.docs)
 
